@@ -127,6 +127,13 @@ CHECKS = {
         "Trusted: harness-side log of the values each body execution observed; body execution = PENDING + fresh invocation object + run(); with a collapsing (registration-concurrency) sub-task cross-workflow sharing is by design and not checked.",
         "DESIGN.md 3 C18, A.12",
     ),
+    "C14": (
+        "exploration",
+        "Hypothesis stateful machine driving the real start / loop-iteration / child-heartbeat code of the three process-based runners with controllable stand-ins for the OS process objects; capacity oracle",
+        "For MultiThreadRunner (enforce-max on/off), PersistentProcessRunner and ProcessRunner with pools of 1-4 workers: sequences of loop iterations, deaths of any subset of workers with exit codes 0/1/-9/-15 (including all at once), enqueued work and re-queued held invocations. Two iterations after any deaths no dead worker may be tracked and the number of live tracked workers must equal the documented capacity; register_runner_heartbeats must never be called with a dead worker.",
+        "Trusted: stand-ins for multiprocessing.Process/Manager/cpu_count and os.kill in the runner modules (worker bodies never run); capacity rules of DESIGN A.10.",
+        "DESIGN.md 3 C14, A.10",
+    ),
 }
 
 NOT_YET = "check not built yet in this session (work in progress, see DESIGN.md section 3)"
